@@ -21,8 +21,11 @@ CONSTANTS Modern,      \* the version has checksummed segments (v5)
           Rig,         \* "lib-lib" | "lib-raw" | "raw-lib"
           NReq,        \* requests per session
           Faults,      \* fault kinds injected (C16): subset of {"close-client", "close-server", "cancel", "drop"}; {} = none
-          BigFrames    \* numbers of the requests (raw client) / responses (raw server) whose envelope is larger than
+          BigFrames,   \* numbers of the requests (raw client) / responses (raw server) whose envelope is larger than
                        \* one segment; the library never sends such envelopes (it cannot split), it only receives them
+          SplitSmall   \* numbers of the requests / responses that fit a segment but which a raw peer MAY still split
+                       \* over 2 or 3 segments (where to cut - inside the envelope header, at its end, evenly, one byte
+                       \* before the end - is the harness's choice, cycled over the sessions)
 
 VARIABLES phase,     \* handshake progress: "init" "startup" "answered" "authresp" "done"
           cmodern, smodern,
@@ -94,7 +97,8 @@ ClientReadAuthSuccess ==
 \* or, for a big envelope alone, split into 2 or 3 parts.  Legacy framing has only "solo".
 Split(id, n) == [i \in 1..n |-> Unit("part", <<[id |-> id, i |-> i, n |-> n]>>)]
 \* the ways to put ONE envelope on a modern wire: whole if it fits a segment, otherwise split in 2 or 3 parts
-One(id) == IF id \in BigFrames THEN {Split(id, 2), Split(id, 3)} ELSE {<<Unit("seg", <<id>>)>>}
+One(id) == IF id \in BigFrames THEN {Split(id, 2), Split(id, 3)}
+           ELSE {<<Unit("seg", <<id>>)>>} \cup (IF id \in SplitSmall THEN {Split(id, 2), Split(id, 3)} ELSE {})
 Packs(ids, modern) ==
     IF ~modern THEN {[i \in 1..Len(ids) |-> Unit("frame", <<ids[i]>>)]}
     ELSE (IF Len(ids) = 1 THEN One(ids[1]) ELSE {a \o b : a \in One(ids[1]), b \in One(ids[2])})
